@@ -182,6 +182,46 @@ def run(replay=None):
         if len(samples) < 2:
             samples.append({"sequence": lines[:25]})
 
+    # the same call sequences under AddressSanitizer: a use after free or a double free is reported at the access
+    # itself, whether or not the counters notice
+    import cxxbuild
+    ASAN_FLAGS = ("-std=gnu++17 -O1 -g -fsanitize=address -fno-omit-frame-pointer -DNDEBUG -DLIBFIVE_VERIF -fPIC -w "
+                  "-DGIT_TAG='\"verif\"' -DGIT_REV='\"verif\"' -DGIT_BRANCH='\"verif\"'")
+    ok_a, log_a, _ = cxxbuild.build_variant("asan", ASAN_FLAGS, ["bin/handles"])
+    stats["asan_sequences"] = 0
+    if not ok_a:
+        ck.violation("build", "harness does not build against /repo working tree (AddressSanitizer variant)",
+                     {"log": log_a[-3000:]}, no_input=True)
+    else:
+        exe_a = os.path.join(common.VERIF, ".build", "cxx-asan", "bin", "handles")
+        env = dict(os.environ, ASAN_OPTIONS="detect_leaks=0:halt_on_error=1:exitcode=99:alloc_dealloc_mismatch=0")
+        sub = texts[:(300 if quick else 6000)]
+        from concurrent.futures import ThreadPoolExecutor
+
+        def one(chunk):
+            r = subprocess.run([exe_a], input="".join(chunk), stdout=subprocess.PIPE, stderr=subprocess.PIPE, text=True,
+                               errors="replace", timeout=1800, env=env)
+            return chunk, r.returncode, r.stderr
+        with ThreadPoolExecutor(max_workers=8) as ex:
+            for chunk, rc, err in ex.map(one, [sub[i::8] for i in range(8)]):
+                stats["asan_sequences"] += len(chunk)
+                if "ERROR: AddressSanitizer" in err:
+                    import re as _re
+                    kind = (_re.search(r"ERROR: AddressSanitizer: (\S+)", err) or [None, "?"])[1]
+                    # find the offending sequence by re-running one by one
+                    culprit = None
+                    for c in chunk:
+                        r1 = subprocess.run([exe_a], input=c, stdout=subprocess.PIPE, stderr=subprocess.PIPE, text=True,
+                                            errors="replace", timeout=600, env=env)
+                        if "ERROR: AddressSanitizer" in r1.stderr:
+                            culprit = c
+                            break
+                    ck.violation("asan:" + kind, "AddressSanitizer reports a memory error in a sequence of handle operations",
+                                 {"sequence": culprit or "".join(chunk)[:3000],
+                                  "report": err[err.find("ERROR: AddressSanitizer"):][:3000]})
+                elif rc != 0:
+                    ck.violation("crash", f"the handle harness crashed under AddressSanitizer (rc={rc})",
+                                 {"stderr": err[-2000:]})
     # deep / wide destruction on a small stack
     deep_n = 200000 if quick else 1000000
     deep = "case deep\n" + "\n".join(f"deepchain {deep_n} {k}" for k in range(8)) + "\nend\n"
